@@ -318,6 +318,9 @@ class Case:
         L.append("  { std::string inval, regs, after;")
         L.append("    for (int victim = 0; victim < %d; ++victim) {" % K)
         L.append("      g_tr.assign(%d, nullptr); for (int k = 0; k < %d; ++k) g_tr[k] = new Tr(k);" % (K, K))
+        if self.idx % 2:
+            # a trackable that has already delivered a round of notifications once is as good as a fresh one
+            L.append("      for (int k = 0; k < %d; ++k) first_life(*g_tr[k]);" % K)
         L.append("      { sigc::slot<%s(%s)> s = %s;" % (R, self.top_sig(), expr))
         L.append("        if (victim == 0) for (int k = 0; k < %d; ++k) regs += (k ? \",\" : \"\") + std::to_string(k) + \"=\" + std::to_string(probe_regs(*g_tr[k]));" % K)
         L.append("        delete g_tr[victim]; g_tr[victim] = nullptr;")
